@@ -1529,7 +1529,7 @@ static size_t sel = (size_t)-1; /* save extension length */
 int save_object (object_t * ob, const char *file, int save_zeros) {
 
   char *name;
-  static char tmp_name[256];
+  static char tmp_name[PATH_MAX];
   size_t len;
   FILE *f;
   int success;
@@ -1564,8 +1564,12 @@ int save_object (object_t * ob, const char *file, int save_zeros) {
    * Write the save-files to different directories, just in case
    * they are on different file systems.
    */
-  snprintf (tmp_name, sizeof(tmp_name), "%.250s.tmp", file);
-  tmp_name[sizeof(tmp_name) - 1] = '\0';
+  if ((size_t) snprintf (tmp_name, sizeof(tmp_name), "%s.tmp", file) >= sizeof(tmp_name))
+    {
+      /* never write to a truncated (that is: different) file name */
+      free_string_svalue (sp--);
+      return 0;
+    }
 
   opt_trace (TT_EVAL|1, "creating tmp file: %s", tmp_name);
   f = fopen (tmp_name, "w");
